@@ -416,7 +416,7 @@ func removeFromCollection(col ItemCollection, items ...Item) ItemCollection {
 		return col
 	}
 	for _, ob := range col {
-		if ob == nil {
+		if IsNil(ob) {
 			// NOTE(marius): nil entries are left alone
 			result = append(result, ob)
 			continue
@@ -457,7 +457,7 @@ func removeFromAudience(a *Activity, items ...Item) error {
 // Recipients performs recipient de-duplication on the Activity's To, Bto, CC and BCC properties
 func (a *Activity) Recipients() ItemCollection {
 	var alwaysRemove ItemCollection
-	if a.GetType() == BlockType && a.Object != nil {
+	if a.GetType() == BlockType && !IsNil(a.Object) {
 		alwaysRemove = append(alwaysRemove, a.Object)
 	}
 	if len(alwaysRemove) > 0 {
